@@ -11,6 +11,7 @@ import CaddyModel.C18.Http
 import CaddyModel.C18.Preserve
 import CaddyModel.C18.Rewrite
 import CaddyModel.C18.Consumers
+import CaddyModel.C18.FcgiLemmas
 import CaddyModel.C18.CallSites
 import CaddyModel.C18.CallSitesTree
 import CaddyModel.Gen.Consts
@@ -356,6 +357,26 @@ theorem host_match_is_one_expansion_of_the_configured_pattern (c : HostCase) (p1
 theorem dialled_address_is_the_parse_of_one_expansion (dialT varT : Bytes) (r : HttpReq) :
     ∃ e, replaceAll dialT [] (dialEnv varT r) = .ok e ∧ dialServe false dialT varT r = C13.parseNetworkAddress e :=
   ⟨_, expandAll_exact _ dialT, dial_is_one_expansion_of_configured_template _ dialT⟩
+
+/-! ### the FastCGI transport's CGI table -/
+
+/-- **FastCGI: each configured `env` variable is exactly ONE expansion of its template** (unless a request header
+    field of that CGI name overrides it — headers are written last): `ReplaceAll(template, "")` under the
+    request's provider chain; by `single_pass` one left-to-right cut of the CONFIGURED text, values inserted
+    verbatim. -/
+theorem fcgi_env_value_is_one_expansion (c : FcgiCfg) (r : FcgiReq) (h : c.envKey ∉ fcgiHeaderKeys) :
+    ∃ e, replaceAll c.envT [] (fcgiEnv r) = .ok e ∧ tget c.envKey (fcgiBuild false c r) = some e :=
+  ⟨_, expandAll_exact _ c.envT, fcgi_env_row _ _ c r h⟩
+
+/-- **FastCGI: the document root is `filepath.Clean` of ONE `ReplaceAll(root, ".")`** of the configured root. -/
+theorem fcgi_root_is_one_expansion (c : FcgiCfg) (r : FcgiReq) (h : c.envKey ≠ str "DOCUMENT_ROOT") :
+    ∃ e, replaceAll c.rootT [46] (fcgiEnv r) = .ok e ∧
+      tget (str "DOCUMENT_ROOT") (fcgiBuild false c r) = some (C07.pathClean e) := by
+  have h1 := replace_never_panics c.rootT (fcgiEnv r) ⟨[46], true, false, false, none⟩
+  have h2 := replace_never_runs_out_of_fuel c.rootT (fcgiEnv r) ⟨[46], true, false, false, none⟩
+  refine ⟨expandAllDot (fcgiEnv r) c.rootT, ?_, fcgi_root_row _ _ c r h⟩
+  unfold expandAllDot replaceAll at *
+  cases h' : replace c.rootT (fcgiEnv r) ⟨[46], true, false, false, none⟩ <;> simp_all [outOrEmpty]
 
 /-- **provider rows hand request text over untouched.** What the header / query-parameter / path /
     `http.vars.` rows of the modelled provider chain return is the request's bytes; the `file.` provider
